@@ -1128,6 +1128,8 @@ class Exec:
         if v.kind == 'comp' and len(n.targets) == 1 and ast.unparse(n.targets[0]) in (self.c.get('materialise') or ()):
             v = self.materialise(st, v)              # the contract talks about this list: name it
         for t in n.targets: self.store(t, v, st)
+        hk = self.c.get('assign_hook')
+        if hk is not None and not self.dry: hk(self, st, n, v)          # the contract may state what a particular local must hold at this point
         return [st]
 
     def s_AnnAssign(self, n, st):
